@@ -30,7 +30,23 @@ def _last_of(h):
         raise HarnessLimit("HybridLogicalClock._last not found") from ex
 
 
-def run_history(nn, events, *, readings=None, models=None, true_times=None, serialise=False):
+def membership(mode, nn, rng=None):
+    """Initial node_ids (as indices) of every node's VectorClock: the full list, the nodes that
+    existed when the node started (prefix), the node alone, or a random subset containing it."""
+    out = []
+    for n in range(1, nn + 1):
+        if mode == "all":
+            out.append(list(range(1, nn + 1)))
+        elif mode == "prefix":
+            out.append(list(range(1, n + 1)))
+        elif mode == "self":
+            out.append([n])
+        else:
+            out.append(sorted({n, *(k for k in range(1, nn + 1) if rng.random() < 0.4)}))
+    return out
+
+
+def run_history(nn, events, *, readings=None, models=None, true_times=None, serialise=False, member=None):
     """events: list of (node, kind, src_event_index|0).  Physical time of event j at its node:
     readings[j] (ns, scripted wall_time) or, with `models` (per node ClockModel|None) and
     true_times[j] (ns), whatever NodeClock(model).now returns at that true time.
@@ -41,7 +57,7 @@ def run_history(nn, events, *, readings=None, models=None, true_times=None, seri
     lam, vcs, hlcs, ncs = {}, {}, {}, {}
     for n in range(1, nn + 1):
         lam[n] = LamportClock()
-        vcs[n] = VectorClock(nid(n), list(ids))
+        vcs[n] = VectorClock(nid(n), [nid(k) for k in member[n - 1]] if member else list(ids))
         if models is not None:
             nc = NodeClock(models[n - 1])
             nc.set_clock(base)
@@ -80,7 +96,7 @@ def run_history(nn, events, *, readings=None, models=None, true_times=None, seri
     return pts, L, V, H, ids
 
 
-def run_history_sim(nn, events, models, true_times, serialise=False):
+def run_history_sim(nn, events, models, true_times, serialise=False, member=None):
     """The same history executed by entities inside a real Simulation: every node is an Entity that
     owns a LamportClock, a VectorClock and a HybridLogicalClock reading a NodeClock(model) which is
     fed by the simulation clock (Entity.set_clock forwarding, as node_clock.py prescribes).  Event j
@@ -97,7 +113,7 @@ def run_history_sim(nn, events, models, true_times, serialise=False):
             super().__init__(nid(n))
             self.n = n
             self.lam = LamportClock()
-            self.vc = VectorClock(nid(n), list(ids))
+            self.vc = VectorClock(nid(n), [nid(k) for k in member[n - 1]] if member else list(ids))
             self.nc = NodeClock(models[n - 1])
             self.hlc = HybridLogicalClock(nid(n), physical_clock=self.nc)
 
@@ -138,7 +154,7 @@ def run_history_sim(nn, events, models, true_times, serialise=False):
             [rec[j][3] for j in order], ids)
 
 
-def to_trace(tid, nn, events, pts, L, V, H, ids):
+def to_trace(tid, nn, events, pts, L, V, H, ids, member=None):
     """Physical nanoseconds -> order-preserving ranks (32-bit TLC integers)."""
     vals = sorted({0, *pts, *(h.physical_ns for h in H)})
     rank = {v: i for i, v in enumerate(vals)}
@@ -159,7 +175,9 @@ def to_trace(tid, nn, events, pts, L, V, H, ids):
     return {"id": tid, "nn": nn, "z": rank[0],
             "ev": [[n, k, s, rank[p]] for (n, k, s), p in zip(events, pts)],
             "lam": [int(x) for x in L],
-            "vc": [[int(v.get(i, -1)) for i in ids] + ([99] if extra else []) for v in V],
+            "vc": [[int(v.get(i, 0)) for i in ids] + ([99] if extra else []) for v in V],
+            "k0": [list(m) for m in member] if member else [list(range(1, nn + 1)) for _ in range(nn)],
+            "vk": [sorted(idx.get(k, 99) for k in v) for v in V],
             "hl": [[rank[h.physical_ns], int(h.logical), idx.get(h.node_id, 0)] for h in H],
             "vm": vm, "hm": hm}
 
